@@ -167,7 +167,17 @@ def check(m, run):
     pu4(m, run, P)
     # ---------------------------------------------------------------- PV1 paired swap in matrix_pivot
     piv = m.func('linalg.matrix_pivot')
-    check_pivot(m, run, piv)
+    # row pivoting is decided on one matrix of every order type of the column magnitudes (PV4); the rule that reads how the two swaps are
+    # spelt corroborates
+    from .. import skel_drivers as _sdp
+    n_pv = len(run.obs)
+    try:
+        _sdp.pv4(m, run)
+    except AnalysisError as ex:
+        run.error(str(ex))
+    pv_ok = len(run.obs) > n_pv and all(o.ok for o in run.obs[n_pv:])
+    with run.corroborating(pv_ok, 'PV4', rules=('PV1.paired-swap', 'PV1.full-row-swap', 'PV1.permutation-starts-as-identity')):
+        check_pivot(m, run, piv)
     pv2(m, run, piv)
     run.floor('PV2.pivot-companion', 3, 'matrix_inverse, matrix_determinant, lu_factor')
     # the LU kernels are decided exactly on symbolic matrices (LA3); the rule that reads how lu_factor spells the permutation corroborates
